@@ -152,6 +152,9 @@ func runFillIn(c *Ctx) {
 	}
 	arr, dep := sides["arrival_time"], sides["departure_time"]
 	if arr == nil || dep == nil || arr.flg == nil || dep.flg == nil || arr.val == nil || dep.val == nil {
+		if fillViaHelper(c, fn, dec) {
+			return
+		}
 		c.Undecided("FILL", fname, "time columns", p.pos(fn.Pos()), "arrival_time/departure_time are not decoded by parseGtfsTimeToDuration with their validity flags in the recognised shape")
 		return
 	}
@@ -237,6 +240,209 @@ func runFillIn(c *Ctx) {
 			}
 		}
 	}
+}
+
+// fillViaHelper: the two cells are handed to a helper h(rawArrival, rawDeparture) (arrival, departure, ok) that decodes
+// both and applies the fill-in rule. For each of the four validity combinations the tuples h can return are read path
+// by path; in the caller the two results are what is stored, under ok == true. Emits the same obligations as the
+// in-line form. Returns false when the code does not have this shape.
+func fillViaHelper(c *Ctx, fn, dec *ssa.Function) bool {
+	p := c.P
+	fname := shortName(fn)
+	for _, b := range fn.Blocks {
+		for _, in := range b.Instrs {
+			hc, ok := in.(*ssa.Call)
+			if !ok {
+				continue
+			}
+			h := staticCallee(hc)
+			if h == nil || h == dec || !c.P.isModuleFn(h) || len(h.Blocks) == 0 || h.Signature.Results().Len() != 3 || len(h.Params) != len(hc.Call.Args) {
+				continue
+			}
+			ai, di := -1, -1
+			for k, a := range hc.Call.Args {
+				rd, isCall := a.(*ssa.Call)
+				if !isCall || len(rd.Call.Args) == 0 {
+					continue
+				}
+				if ci, _ := resolveColumn(rd.Call.Args[0], 0); ci != nil {
+					switch ci.name {
+					case "arrival_time":
+						ai = k
+					case "departure_time":
+						di = k
+					}
+				}
+			}
+			if ai < 0 || di < 0 {
+				continue
+			}
+			type side struct {
+				call     *ssa.Call
+				val, flg ssa.Value
+			}
+			find := func(prm *ssa.Parameter) *side {
+				for _, hb := range h.Blocks {
+					for _, hin := range hb.Instrs {
+						call, ok := hin.(*ssa.Call)
+						if !ok || staticCallee(call) != dec || call.Call.Args[0] != ssa.Value(prm) {
+							continue
+						}
+						sd := &side{call: call}
+						for _, r := range *call.Referrers() {
+							if e, ok := r.(*ssa.Extract); ok {
+								if e.Index == 0 {
+									sd.val = e
+								} else {
+									sd.flg = e
+								}
+							}
+						}
+						return sd
+					}
+				}
+				return nil
+			}
+			arr, dep := find(h.Params[ai]), find(h.Params[di])
+			if arr == nil || dep == nil || arr.val == nil || arr.flg == nil || dep.val == nil || dep.flg == nil {
+				continue
+			}
+			flagIdx := -1
+			for i := 0; i < 3; i++ {
+				if shortType(h.Signature.Results().At(i).Type()) == "bool" {
+					flagIdx = i
+				}
+			}
+			if flagIdx < 0 {
+				continue
+			}
+			var valIdx []int
+			for i := 0; i < 3; i++ {
+				if i != flagIdx {
+					valIdx = append(valIdx, i)
+				}
+			}
+			later := dep.call
+			if dominatesInstr(dep.call, arr.call) {
+				later = arr.call
+			}
+			name := func(v ssa.Value) string {
+				switch v {
+				case arr.val:
+					return "arrival_time value"
+				case dep.val:
+					return "departure_time value"
+				}
+				if k, ok := v.(*ssa.Const); ok {
+					return "constant " + k.String()
+				}
+				return "other (" + canon(v) + ")"
+			}
+			// the caller: result valIdx[0] -> ArrivalTime, valIdx[1] -> DepartureTime, both stored under ok
+			stores := map[string]*ssa.Store{}
+			okCaller := true
+			for _, fb := range fn.Blocks {
+				for _, fin := range fb.Instrs {
+					st, ok := fin.(*ssa.Store)
+					if !ok {
+						continue
+					}
+					fa, ok := st.Addr.(*ssa.FieldAddr)
+					if !ok || typeName(fa.X.Type()) != "gtfs.ScheduledStopTime" {
+						continue
+					}
+					f := fieldName(fa.X.Type(), fa.Field)
+					if f != "ArrivalTime" && f != "DepartureTime" {
+						continue
+					}
+					if stores[f] != nil {
+						okCaller = false
+					}
+					stores[f] = st
+					want := valIdx[0]
+					if f == "DepartureTime" {
+						want = valIdx[1]
+					}
+					ex, isEx := st.Val.(*ssa.Extract)
+					if !isEx || ex.Tuple != ssa.Value(hc) || ex.Index != want {
+						okCaller = false
+					}
+					underOK := false
+					for _, ce := range dominatingConds(fb) {
+						cnd, val := ce.Cond, ce.Val
+						if un, isNot := cnd.(*ssa.UnOp); isNot && un.Op == token.NOT {
+							cnd, val = un.X, !val
+						}
+						if fe, isEx := cnd.(*ssa.Extract); isEx && fe.Tuple == ssa.Value(hc) && fe.Index == flagIdx && val {
+							underOK = true
+						}
+					}
+					if !underOK {
+						okCaller = false
+					}
+				}
+			}
+			if stores["ArrivalTime"] == nil || stores["DepartureTime"] == nil {
+				continue
+			}
+			for _, val := range []struct{ a, d bool }{{true, true}, {true, false}, {false, true}, {false, false}} {
+				flags := map[ssa.Value]bool{arr.flg: val.a, dep.flg: val.d}
+				label := fmt.Sprintf("arrival valid=%v, departure valid=%v", val.a, val.d)
+				got := map[string]map[string]bool{"ArrivalTime": {}, "DepartureTime": {}}
+				nAccept, nReject := 0, 0
+				for _, rb := range h.Blocks {
+					ret, isRet := rb.Instrs[len(rb.Instrs)-1].(*ssa.Return)
+					if !isRet {
+						continue
+					}
+					walkFlagPaths(later.Block(), nil, rb, flags, func(pe pathEnv) {
+						fv, known := evalFlagCond(ret.Results[flagIdx], flags, pe)
+						if !known {
+							got["ArrivalTime"]["unknown flag"] = true
+							nAccept++
+							return
+						}
+						if !fv {
+							nReject++
+							return
+						}
+						nAccept++
+						got["ArrivalTime"][name(pe.resolvePhi(ret.Results[valIdx[0]]))] = true
+						got["DepartureTime"][name(pe.resolvePhi(ret.Results[valIdx[1]]))] = true
+					})
+				}
+				for _, field := range []string{"ArrivalTime", "DepartureTime"} {
+					st := stores[field]
+					var gs []string
+					for g := range got[field] {
+						gs = append(gs, g)
+					}
+					sort.Strings(gs)
+					key := fmt.Sprintf("%s under (%s)", field, label)
+					switch {
+					case !val.a && !val.d:
+						c.Check(nAccept == 0 && nReject > 0 && okCaller, "FILL", fname, key, p.ipos(st), "the helper answers ok=false and the caller stores only under ok: the row is rejected", "a stop time with neither time valid is still stored (values: "+strings.Join(gs, ", ")+")")
+					default:
+						want := "arrival_time value"
+						if field == "DepartureTime" {
+							want = "departure_time value"
+						}
+						if !val.a {
+							want = "departure_time value"
+						}
+						if !val.d {
+							want = "arrival_time value"
+						}
+						ok := nAccept > 0 && nReject == 0 && len(gs) == 1 && gs[0] == want && okCaller
+						c.Check(ok, "FILL", fname, key, p.ipos(st), fmt.Sprintf("on all %d paths of %s the returned value is the %s, and the caller stores it under ok", nAccept, shortName(h), want),
+							fmt.Sprintf("stored value is {%s} on %d accepting / %d rejecting paths of %s; it must be the %s (the other side is invalid or is the field's own column)", strings.Join(gs, ", "), nAccept, nReject, shortName(h), want))
+					}
+				}
+			}
+			return true
+		}
+	}
+	return false
 }
 
 // runInheritance: stores in the region guarded by the InheritWheelchairBoarding option.
